@@ -213,6 +213,12 @@ def run(ctx):
         pcases = []
         if "between" in ro:
             pcases.append((list(ro.get("before", [])), list(ro["between"]), list(ro.get("after", []))))
+        # the generator's special sequences at every cut (a left part whose right state holds order-1 words, then one more word)
+        for sp in getattr(m, "special", []):
+            sp = list(sp)
+            for a in range(1, len(sp)):
+                pcases.append(([], sp[:a], sp[a:]))
+                pcases.append((sp[:a], sp[a:], []))
         for s in sents:
             s = s[:8]
             for _ in range(ctx.pick(3, 8)):
